@@ -1084,15 +1084,13 @@ Proof. vm_compute. reflexivity. Qed.
 
 (* the witnesses, stated with [matches] and the declarative specification *)
 Example ex_xml_refuted_stmt :
-  let w := [60; 33; 45; 45; 45; 45; 45; 62]%N in
   exists r, parol_block_rx [60; 33; 45; 45]%N [45; 45; 62]%N = Some r /\
-            ~ matches r w /\ is_block_comment [60; 33; 45; 45]%N [45; 45; 62]%N w.
+            ~ matches r [60; 33; 45; 45; 45; 45; 45; 62]%N /\
+            is_block_comment [60; 33; 45; 45]%N [45; 45; 62]%N [60; 33; 45; 45; 45; 45; 45; 62]%N.
 Proof.
-  eexists. split; [reflexivity|].
-  destruct (block_comment_check_witness 500 _ [60; 33; 45; 45]%N [45; 45; 62]%N _
-              ltac:(discriminate) ltac:(vm_compute; reflexivity)) as [_ [[Hm _]|H]].
-  - apply matchb_spec in Hm. vm_compute in Hm. discriminate.
-  - exact H.
+  eexists. split; [reflexivity|]. split.
+  - apply matchb_false. vm_compute. reflexivity.
+  - apply block_spec_correct; [discriminate | vm_compute; reflexivity].
 Qed.
 
 Print Assumptions equiv_regex_dfa_on_sound.
